@@ -12,7 +12,6 @@ import (
 	"os"
 	"os/exec"
 	"path/filepath"
-	"regexp"
 	"sort"
 	"strings"
 	"sync"
@@ -371,258 +370,12 @@ func dropDupInOnePom1(l *Lineage, managed bool) []*Lineage {
 	return []*Lineage{first, last}
 }
 
-// sameButSpelling reports whether two declarations of one key have the same
-// content (type "" and "jar" being one spelling).
-func sameButSpelling(a, b Dep) bool {
-	if a.Type == "" {
-		a.Type = "jar"
-	}
-	if b.Type == "" {
-		b.Type = "jar"
-	}
-	return depSame(a, b)
-}
-
-// forKinds calls f per file and kind with the main list and the profiles' lists.
-func forKinds(l *Lineage, f func(main *[]Dep, profs []*[]Dep)) {
-	for i := range l.Poms {
-		p := &l.Poms[i]
-		var pd, pm []*[]Dep
-		for j := range p.Profiles {
-			pd = append(pd, &p.Profiles[j].Deps)
-			pm = append(pm, &p.Profiles[j].Mgmt)
-		}
-		f(&p.Deps, pd)
-		f(&p.Mgmt, pm)
-	}
-}
-
-// profileDupKey: a profile of a file declares a key that the file's main list
-// of the same kind, or an earlier profile of the file, declares with different
-// content (Maven: the profile's declaration replaces the earlier one).
-func profileDupKey(l *Lineage) bool {
-	found := false
-	forKinds(l, func(main *[]Dep, profs []*[]Dep) {
-		seen := map[string]Dep{}
-		for _, d := range *main {
-			if _, ok := seen[depKey(d)]; !ok {
-				seen[depKey(d)] = d
-			}
-		}
-		for _, pl := range profs {
-			var own []Dep
-			for _, d := range *pl {
-				if prev, ok := seen[depKey(d)]; ok && !sameButSpelling(prev, d) {
-					found = true
-				}
-				own = append(own, d)
-			}
-			for _, d := range own {
-				if _, ok := seen[depKey(d)]; !ok {
-					seen[depKey(d)] = d
-				}
-			}
-		}
-	})
-	return found
-}
-
-// dropProfileDupKey removes from every profile the keys already declared by
-// the file's main list or by an earlier profile.
-func dropProfileDupKey(l *Lineage) []*Lineage {
-	c, c2 := cloneLineage(l), cloneLineage(l)
-	// Second way: the later declaration stays, the earlier ones go.
-	forKinds(c2, func(main *[]Dep, profs []*[]Dep) {
-		later := map[string]bool{}
-		for i := len(profs) - 1; i >= 0; i-- {
-			var out []Dep
-			for _, d := range *profs[i] {
-				if !later[depKey(d)] {
-					out = append(out, d)
-				}
-			}
-			for _, d := range *profs[i] {
-				later[depKey(d)] = true
-			}
-			*profs[i] = out
-		}
-		var out []Dep
-		for _, d := range *main {
-			if !later[depKey(d)] {
-				out = append(out, d)
-			}
-		}
-		*main = out
-	})
-	forKinds(c, func(main *[]Dep, profs []*[]Dep) {
-		seen := map[string]bool{}
-		for _, d := range *main {
-			seen[depKey(d)] = true
-		}
-		for _, pl := range profs {
-			var out, own []Dep
-			for _, d := range *pl {
-				if !seen[depKey(d)] {
-					out = append(out, d)
-				}
-				own = append(own, d)
-			}
-			for _, d := range own {
-				seen[depKey(d)] = true
-			}
-			*pl = out
-		}
-	})
-	return []*Lineage{c, c2}
-}
-
-var parentBuiltin = regexp.MustCompile(`\$\{(project\.|pom\.)?parent\.(version|groupId)\}`)
-
-// bomChains returns, for every file outside the project's own chain, the leaf
-// (imported BOM) whose chain it belongs to; the generator's chains are disjoint.
-func bomLeafOf(l *Lineage) map[int]int {
-	inRoot := map[int]bool{}
-	for _, i := range chainOf(l, 0) {
-		inRoot[i] = true
-	}
-	isParent := map[[3]string]bool{}
-	for _, p := range l.Poms {
-		if p.Parent != nil {
-			isParent[*p.Parent] = true
-		}
-	}
-	out := map[int]int{}
-	for i, p := range l.Poms {
-		if inRoot[i] || isParent[p.Dir] {
-			continue
-		}
-		for _, j := range chainOf(l, i) {
-			if !inRoot[j] {
-				out[j] = i
-			}
-		}
-	}
-	return out
-}
-
-func forStrings(p *Pom, f func(s *string)) {
-	lists := []*[]Dep{&p.Deps, &p.Mgmt}
-	props := []*[][2]string{&p.Props}
-	for j := range p.Profiles {
-		lists = append(lists, &p.Profiles[j].Deps, &p.Profiles[j].Mgmt)
-		props = append(props, &p.Profiles[j].Props)
-	}
-	for _, l := range lists {
-		for k := range *l {
-			d := &(*l)[k]
-			f(&d.G)
-			f(&d.V)
-			f(&d.Scope)
-		}
-	}
-	for _, ps := range props {
-		for k := range *ps {
-			f(&(*ps)[k][1])
-		}
-	}
-}
-
-// bomParentBuiltin: a file of an imported BOM's chain mentions
-// project.parent.version / project.parent.groupId (any spelling), which Maven
-// evaluates against the BOM's own <parent>.
-func bomParentBuiltin(l *Lineage) bool {
-	found := false
-	for i, leaf := range bomLeafOf(l) {
-		if l.Poms[leaf].Parent == nil {
-			continue
-		}
-		forStrings(&l.Poms[i], func(s *string) {
-			if parentBuiltin.MatchString(*s) {
-				found = true
-			}
-		})
-	}
-	return found
-}
-
-// literalBomParent writes the BOM's parent coordinates in place of the built-ins.
-func literalBomParent(l *Lineage) []*Lineage {
-	c := cloneLineage(l)
-	for i, leaf := range bomLeafOf(c) {
-		par := c.Poms[leaf].Parent
-		if par == nil {
-			continue
-		}
-		forStrings(&c.Poms[i], func(s *string) {
-			*s = parentBuiltin.ReplaceAllStringFunc(*s, func(m string) string {
-				if strings.HasSuffix(m, "version}") {
-					return par[2]
-				}
-				return par[0]
-			})
-		})
-	}
-	return []*Lineage{c}
-}
-
 func forProfiles(l *Lineage, f func(pr *Profile)) {
 	for i := range l.Poms {
 		for j := range l.Poms[i].Profiles {
 			f(&l.Poms[i].Profiles[j])
 		}
 	}
-}
-
-// plainJDK: negated = true: any "!version". negated = false: a plain version
-// for which Maven's rule (java.version starts with the text) and the rule
-// documented in profile.go (same major and minor number, not greater) part:
-// not a prefix although major and minor agree with the JDK's (11.0.1 for
-// 11.0.8), or a prefix that ends inside a number (1 for 11.0.8).
-func plainJDK(spec string, negated bool) bool {
-	if spec == "" || strings.HasPrefix(spec, "[") || strings.HasPrefix(spec, "(") {
-		return false
-	}
-	if negated || strings.HasPrefix(spec, "!") {
-		return negated && strings.HasPrefix(spec, "!")
-	}
-	jdk := maven.JDKProfileActivation
-	if strings.HasPrefix(jdk, spec) {
-		return len(spec) < len(jdk) && jdk[len(spec)] != '.'
-	}
-	sp, jp := strings.Split(spec, "."), strings.Split(jdk, ".")
-	return len(sp) > 2 && len(jp) > 2 && sp[0] == jp[0] && sp[1] == jp[1]
-}
-
-// jdkSpec: a profile's <jdk> is a plain (negated = false) or a negated version
-// (Maven: prefix of java.version, "!" negates), not a range.
-func jdkSpec(negated bool) func(l *Lineage) bool {
-	return func(l *Lineage) bool {
-		found := false
-		forProfiles(l, func(pr *Profile) { found = found || plainJDK(pr.JDK, negated) })
-		return found
-	}
-}
-
-// jdkAsRange rewrites every plain (or every negated) <jdk> into a range that is
-// satisfied exactly when Maven's prefix rule is.
-func jdkAsRange(negated bool) func(l *Lineage) []*Lineage {
-	return func(l *Lineage) []*Lineage { return jdkAsRange1(l, negated) }
-}
-
-func jdkAsRange1(l *Lineage, negated bool) []*Lineage {
-	c := cloneLineage(l)
-	forProfiles(c, func(pr *Profile) {
-		if !plainJDK(pr.JDK, negated) {
-			return
-		}
-		active := strings.HasPrefix(maven.JDKProfileActivation, strings.TrimPrefix(pr.JDK, "!")) != strings.HasPrefix(pr.JDK, "!")
-		if active {
-			pr.JDK = "[1,)"
-		} else {
-			pr.JDK = "[99,)"
-		}
-	})
-	return []*Lineage{c}
 }
 
 // The family names that plexus-utils' Os knows; any other <family> value is
@@ -658,13 +411,14 @@ func familyAsKnown(l *Lineage) []*Lineage {
 	return []*Lineage{c}
 }
 
+// Only shapes of OPEN findings are attributable (and only while the finding
+// is listed as open, see Run). The shapes repaired in /repo
+// (duplicate declarations in one <dependencies> list, a profile redeclaring a
+// key of the main section, parent.* built-ins inside an imported BOM, plain and
+// negated <jdk> versions) are still generated and have witnesses: a regression
+// there is a fresh violation.
 var shapes = []shape{
-	{class: "C15:dup-in-one-pom:deps", detect: dupInOnePom(false), reduce: dropDupInOnePom(false)},
 	{class: "C15:dup-in-one-pom:mgmt", detect: dupInOnePom(true), reduce: dropDupInOnePom(true)},
-	{class: "C15:profile-dup-key", detect: profileDupKey, reduce: dropProfileDupKey},
-	{class: "C15:bom-parent-builtin", detect: bomParentBuiltin, reduce: literalBomParent},
-	{class: "C15:jdk-prefix", detect: jdkSpec(false), reduce: jdkAsRange(false)},
-	{class: "C15:jdk-negated", detect: jdkSpec(true), reduce: jdkAsRange(true)},
 	{class: "C15:os-family-by-name", detect: osFamilyByName, reduce: familyAsKnown},
 }
 
@@ -793,6 +547,7 @@ func mkCase(l *Lineage, o outcome) lineageCase {
 type monitor struct {
 	r       *ev.Run
 	scratch string
+	shapes  []shape // the shapes whose class belongs to an open finding of this run
 	mu      sync.Mutex
 	nbatch  int
 }
@@ -839,7 +594,7 @@ func (m *monitor) classify(ls []*Lineage) ([]classified, error) {
 			continue
 		}
 		var app []int
-		for k, s := range shapes {
+		for k, s := range m.shapes {
 			if s.detect(l) {
 				app = append(app, k)
 			}
@@ -863,7 +618,7 @@ func (m *monitor) classify(ls []*Lineage) ([]classified, error) {
 			for _, k := range set {
 				var next []*Lineage
 				for _, v := range vars {
-					next = append(next, shapes[k].reduce(v)...)
+					next = append(next, m.shapes[k].reduce(v)...)
 				}
 				vars = next
 			}
@@ -897,7 +652,7 @@ func (m *monitor) classify(ls []*Lineage) ([]classified, error) {
 				continue
 			}
 			for _, k := range set {
-				res[p.i].known = append(res[p.i].known, shapes[k].class)
+				res[p.i].known = append(res[p.i].known, m.shapes[k].class)
 			}
 			break
 		}
@@ -993,6 +748,16 @@ func Run(r *ev.Run, replay string) {
 	m := &monitor{r: r, scratch: filepath.Join(ev.Root, "build", "c15", fmt.Sprintf("%d-%d", os.Getpid(), r.Seed))}
 	os.MkdirAll(m.scratch, 0o755)
 	defer os.RemoveAll(m.scratch)
+	// A shape is attributable only while a finding of its class is open: once
+	// the finding is recorded as fixed, a difference of that shape is fresh.
+	for _, s := range shapes {
+		for _, f := range r.OpenFindings() {
+			if f.Class == s.class {
+				m.shapes = append(m.shapes, s)
+				break
+			}
+		}
+	}
 
 	// Adapter self-test.
 	ver, err := javaBatch([]string{"ver"})
